@@ -1,1 +1,16 @@
-fn main() { println!("stub"); }
+//! Expression-level semantic drivers (DESIGN.md §7.1): C33 evaluation strategies, C04 simplifier, C41 parameters.
+mod ast;
+mod c33;
+
+fn main() {
+    let a: Vec<String> = std::env::args().collect();
+    // panics of the code under test are caught and reported as data; keep stderr readable
+    std::panic::set_hook(Box::new(|_| {}));
+    match a.get(1).map(|s| s.as_str()).unwrap_or("") {
+        "c33" => c33::main(),
+        _ => {
+            eprintln!("usage: vexpr c33 --in cases.ndjson --out results.ndjson");
+            std::process::exit(2);
+        }
+    }
+}
